@@ -317,10 +317,13 @@ func (v *VerifC11Relay) GetStop(id uint32) (bool, bool, bool) {
 	return found, stopped, item.tomb
 }
 
-// Finish: the real finishRelayItem; returns whether pending was decremented.
+// Finish: the real finishRelayItem on behalf of a frame path that looked the item up just now
+// (the looked-up copy is the item currently under the id, so relayItems.deleteCall's identity
+// check passes whenever an item is there); returns whether pending was decremented.
 func (v *VerifC11Relay) Finish(id uint32) bool {
 	before := v.r.pending.Load()
-	v.r.finishRelayItem(v.items, id)
+	lookedUp, _, _ := v.items.Get(id, false)
+	v.r.finishRelayItem(v.items, id, lookedUp)
 	return v.r.pending.Load() != before
 }
 
